@@ -628,3 +628,15 @@ Theorem C06_proto_Skip_source_never_panics :
   let '(e, b', rd') := Gen_protoskip.BinaryProtocol_Skip buf rd wt u in e <> GoSem.Err_PANIC /\ b' = buf /\ rd <= rd' <= GoSem.blen buf.
 Proof. exact GenProtoskipProofs.Skip_never_panics. Qed.
 Print Assumptions C06_proto_Skip_source_never_panics.
+
+(* the fixed-size fast paths of SkipGo (gen/Gen_thriftskipfast.v: the bodies of `if typeSize[vt] > 0` and `if ksz > 0 && vsz > 0`,
+   regenerated from the Go text on every build): ONE skipn of the exact product count x width - no 32-bit wrap for any count < 2^31 *)
+From DG Require Gen_thriftskipfast.
+Theorem C06_SkipGo_fast_paths_from_source :
+  (forall vt sz, 0 <= vt < 256 -> 0 <= sz < 2 ^ 31 ->
+     Gen_thriftskipfast.SkipGo_list_fast vt sz = (Gen_thriftskipfast.Out_return, [(Gen_thriftskipfast.Eff_skipn, [sz * fixed_size vt])])) /\
+  (forall kt vt sz, 0 <= kt < 256 -> 0 <= vt < 256 -> 0 <= sz < 2 ^ 31 ->
+     Gen_thriftskipfast.SkipGo_map_fast sz (Gen_thriftskipfast.typeSize kt) (Gen_thriftskipfast.typeSize vt)
+       = (Gen_thriftskipfast.Out_return, [(Gen_thriftskipfast.Eff_skipn, [sz * (fixed_size kt + fixed_size vt)])])).
+Proof. exact GenThriftskipProofs.SkipGo_fast_paths_exact. Qed.
+Print Assumptions C06_SkipGo_fast_paths_from_source.
